@@ -66,6 +66,9 @@ func c16Gen(r *rand.Rand, tier string) []Case {
 			}
 			switch {
 			case x >= 13:
+				if r.Intn(4) == 0 {
+					c = append(c, "toggle") // conversion of the registered coin switched off / on: the pair stays registered
+				}
 				c = append(c, fmt.Sprintf("query # k=%d val=%s", k, val))
 			case x < 4:
 				c = append(c, fmt.Sprintf("fork # k=%d m=delegate val=%s amt=%s", k, val, amt))
@@ -153,6 +156,13 @@ func c16Exec(c Case) (outs []string, fails []Failure, tags []string) {
 				}
 				app.StakingKeeper.BlockValidatorUpdates(env.ctx)
 				out = "ok"
+			case "toggle":
+				if _, err := app.Erc20Keeper.ToggleConversion(env.ctx, "atest"); err != nil {
+					out = "err"
+				} else {
+					out = "ok"
+					tags = append(tags, "toggle")
+				}
 			case "query":
 				out = "same"
 				tags = append(tags, "query")
